@@ -41,6 +41,19 @@ def serialize(case):
     return case
 
 
+def fixed_cases(tier):
+    """Deterministic boundary sweep of the thread-local tag pools (128 or 256 tags per chunk, the list of
+    chunks grows at 64, 128, ... chunks): armed timers and queued objects on both sides of each threshold."""
+    out = []
+    for n in (127, 129, 8191, 8193, 16383, 16385, 16600, 24700):
+        out.append("mode sim\nstart 0\nproc p0 prio 0 start 0 sprio 0\nop rep %d timer_add 0x1p0 3\n"
+                   "op timers_clear\nop rep %d timer_add 0x1p0 3\nop hold 0x1p1\n" % (n, n // 2))
+    for n in (255, 257, 16383, 16385, 32767, 32769, 33100, 49300):
+        out.append("mode sim\nstart 0\noq Q0 unlimited\nproc p0 prio 0 start 0 sprio 0\nop rep %d oput Q0 1\n"
+                   "op rep %d oget Q0\nop rep 300 oput Q0 2\n" % (n, n - 1))
+    return out
+
+
 def evaluate(text, ctx):
     out = simprop.evaluate_family(text, ctx, FAMILY, NONTRIVIAL)
     if out.ok and ctx.tier == "thorough" and "rel" in ctx.build_dirs:
